@@ -290,6 +290,50 @@ pub fn replay_case(prop: &dyn Property, wl: &str, idx: u64, seed: u64) -> Rec {
     rec
 }
 
+enum Confirm {
+    Returned,
+    Violation,
+    NoReturn,
+}
+
+fn confirm_alone(id: &str, replay: &str, verif_dir: &str, limit_s: u64) -> Confirm {
+    let exe = match std::env::current_exe() {
+        Ok(e) => e,
+        Err(_) => return Confirm::Returned,
+    };
+    let child = std::process::Command::new(exe)
+        .args([id, "--replay", replay])
+        .env("VERIF_DIR", verif_dir)
+        .env("VERIF_REPLAY_LIMIT_S", (limit_s * 4).to_string())
+        .stdout(std::process::Stdio::null())
+        .stderr(std::process::Stdio::null())
+        .spawn();
+    let mut child = match child {
+        Ok(c) => c,
+        Err(_) => return Confirm::Returned,
+    };
+    let t0 = Instant::now();
+    loop {
+        match child.try_wait() {
+            Ok(Some(st)) => {
+                return match st.code() {
+                    Some(1) => Confirm::Violation,
+                    _ => Confirm::Returned,
+                }
+            }
+            Ok(None) => {
+                if t0.elapsed().as_secs() > limit_s {
+                    let _ = child.kill();
+                    let _ = child.wait();
+                    return Confirm::NoReturn;
+                }
+                std::thread::sleep(std::time::Duration::from_millis(200));
+            }
+            Err(_) => return Confirm::Returned,
+        }
+    }
+}
+
 fn sanitize(s: &str) -> String {
     s.chars()
         .map(|c| if c.is_ascii_alphanumeric() || c == '-' || c == '_' { c } else { '_' })
@@ -331,7 +375,9 @@ pub fn run_property(prop: &dyn Property, opts: &RunOpts) -> i32 {
 
     // per-case heartbeat: a case that does not return for a long time (non-termination outside the
     // instrumented loops) is named, so that it can be replayed; wall clock never makes a violation
-    let case_limit_s: u64 = std::env::var("VERIF_CASE_LIMIT_S").ok().and_then(|v| v.parse().ok()).unwrap_or(opts.tier.pick(60, 300));
+    let case_limit_s: u64 = std::env::var("VERIF_CASE_LIMIT_S").ok().and_then(|v| v.parse().ok()).unwrap_or(opts.tier.pick(30, 120));
+    let confirm_limit_s: u64 = std::env::var("VERIF_CONFIRM_LIMIT_S").ok().and_then(|v| v.parse().ok()).unwrap_or(opts.tier.pick(60, 240));
+    let verif_dir_hb = opts.verif_dir.clone();
     let beats: std::sync::Arc<Vec<Mutex<Option<(&'static str, u64, Instant)>>>> = std::sync::Arc::new((0..opts.threads).map(|_| Mutex::new(None)).collect());
     {
         let beats = beats.clone();
@@ -342,11 +388,44 @@ pub fn run_property(prop: &dyn Property, opts: &RunOpts) -> i32 {
             for b in beats.iter() {
                 if let Some((wl, idx, t)) = b.lock().unwrap().as_ref() {
                     if t.elapsed().as_secs() > case_limit_s {
-                        println!(
-                            "INCONCLUSIVE property={} case workload={} index={} seed={} has not returned for {}s of wall clock (possible non-termination; not judged by wall clock). Replay file: {{\"workload\":\"{}\",\"index\":{},\"seed\":{}}}",
-                            idc, wl, idx, seed, case_limit_s, wl, idx, seed
-                        );
-                        std::process::exit(2);
+                        // A case (normally micro- to milliseconds) has not returned. Wall clock alone is
+                        // never a verdict: the case is re-executed alone in a fresh process with a generous
+                        // budget. Only if it does not return there either is it reported as non-termination.
+                        let _ = std::fs::create_dir_all(format!("{}/replays", verif_dir_hb));
+                        let path = format!("{}/replays/{}-{}-{}-s{}-noreturn.json", verif_dir_hb, idc, sanitize(wl), idx, seed);
+                        let j = J::obj(vec![
+                            ("property", J::s(idc.clone())),
+                            ("workload", J::s(*wl)),
+                            ("index", J::i(*idx)),
+                            ("seed", J::i(seed)),
+                            ("signature", J::s(format!("no-return/{}", wl))),
+                            ("what", J::s(format!("the case did not return within {}s in the run and was re-executed alone", case_limit_s))),
+                        ]);
+                        let _ = std::fs::write(&path, j.render());
+                        let code = confirm_alone(&idc, &path, &verif_dir_hb, confirm_limit_s);
+                        match code {
+                            Confirm::Returned => {
+                                println!(
+                                    "INCONCLUSIVE property={} case workload={} index={} seed={} did not return for {}s in the run but returned when re-executed alone (machine load, not judged)",
+                                    idc, wl, idx, seed, case_limit_s
+                                );
+                                std::process::exit(2);
+                            }
+                            Confirm::Violation => {
+                                println!("VIOLATION property={} replay={}", idc, path);
+                                println!("  signature: (see replay) the stuck case reports a violation when re-executed alone");
+                                std::process::exit(1);
+                            }
+                            Confirm::NoReturn => {
+                                println!("VIOLATION property={} replay={}", idc, path);
+                                println!("  signature: no-return/{}", wl);
+                                println!(
+                                    "  what: case workload={} index={} did not return within {}s in the run and again not within {}s when re-executed alone in a fresh process: a call into the crate does not terminate",
+                                    wl, idx, case_limit_s, confirm_limit_s
+                                );
+                                std::process::exit(1);
+                            }
+                        }
                     }
                 }
             }
